@@ -90,6 +90,15 @@ def Ev.failing : Ev → Bool
 /-- no failure, no structure change, no interruption -/
 def Ev.quiet (s : State) (e : Ev) : Bool := !e.failing && !e.structural s
 
+/-- no failure event, and the chunk structure of a fork is not redefined while mrp
+re-attaches (the model keeps `nchunks` across `restart`; `Fork.restoreChunks`) -/
+def Ev.benign (s : State) (e : Ev) : Bool :=
+  !e.failing &&
+  match e with
+  | .mkchunks _ _ _ => !(s.phase == .loading && s.inc != 0)
+  | _ => true
+
+
 /-- the scheduler / job / journal alphabet: what mrp's run loop, a running job and the
 journal reader do by themselves — refresh a node's cached state, end the loading phase,
 submit a job, write a stub or fork `_complete`, define the chunks once the split is
